@@ -86,6 +86,7 @@ func checkC12(c *Check) {
 	r5 := c.Rule("R12.5", "bytes are not overwritten before they are moved", 1)
 	checkOverlap(c, P, r5)
 	checkEncodeBufferAfterFailure(c, P, c.Rule("R12.9", "the buffer of a failed character encoding is not read as a string", 2))
+	checkSliceBoundIsCodePoints(c, P, c.Rule("R12.10", "the DDP indices of a text slice are clamped to a number of code points, not of bytes", 2))
 	r8 := c.Rule("R12.8", "bytes are classified only by the verified UTF-8 classification functions", 5)
 	checkByteClassOwners(c, P, r8)
 	r2 := c.Rule("R12.2", "text equality compares exactly the length its guard tested", 1)
